@@ -473,12 +473,73 @@ func locOfAddr(addr ssa.Value) string {
 	return locProg.CellID(addr)
 }
 
-// loadLoc: v loads a location; "" otherwise.
+// loadLoc: v loads a location; "" otherwise. A variable that lives in
+// registers (a local of the loop's own function that no literal captures) is
+// the web of phi nodes that carry it from iteration to iteration: reading any
+// phi of the web reads the variable.
 func loadLoc(v ssa.Value) string {
 	if u, ok := v.(*ssa.UnOp); ok && u.Op == token.MUL {
 		return locOfAddr(u.X)
 	}
+	if ph, ok := v.(*ssa.Phi); ok {
+		return phiWeb(ph)
+	}
 	return ""
+}
+
+var phiWebCache = map[*ssa.Function]map[*ssa.Phi]string{}
+
+// phiWeb names the connected component of ph in the graph "phi a has phi b as
+// an edge" of its function.
+func phiWeb(ph *ssa.Phi) string {
+	fn := ph.Parent()
+	m, ok := phiWebCache[fn]
+	if !ok {
+		m = map[*ssa.Phi]string{}
+		parent := map[*ssa.Phi]*ssa.Phi{}
+		var find func(p *ssa.Phi) *ssa.Phi
+		find = func(p *ssa.Phi) *ssa.Phi {
+			if parent[p] == nil || parent[p] == p {
+				parent[p] = p
+				return p
+			}
+			r := find(parent[p])
+			parent[p] = r
+			return r
+		}
+		var all []*ssa.Phi
+		for _, b := range fn.Blocks {
+			for _, in := range b.Instrs {
+				if p, ok := in.(*ssa.Phi); ok {
+					all = append(all, p)
+					find(p)
+				}
+			}
+		}
+		for _, p := range all {
+			for _, e := range p.Edges {
+				if q, ok := e.(*ssa.Phi); ok {
+					a, b := find(p), find(q)
+					if a != b {
+						parent[a] = b
+					}
+				}
+			}
+		}
+		// the component is named after its first phi in block order
+		first := map[*ssa.Phi]*ssa.Phi{}
+		for _, p := range all {
+			r := find(p)
+			if first[r] == nil {
+				first[r] = p
+			}
+		}
+		for _, p := range all {
+			m[p] = "phi:" + fn.String() + ":" + first[find(p)].Name()
+		}
+		phiWebCache[fn] = m
+	}
+	return m[ph]
 }
 
 // fromLoc is the provenance predicate "v reads location loc".
@@ -502,6 +563,37 @@ func chanIdentity(c *Ctx, v ssa.Value, stack []*ssa.Call, depth int) string {
 			id = "chan " + c.pos(x) + " " + x.Name()
 		case *ssa.ChangeType:
 			id = chanIdentity(c, x.X, stack, depth+1)
+		case *ssa.Phi:
+			// a register variable holding the channel, set to nil once drained:
+			// the one channel its other edges carry
+			one := ""
+			okPhi := true
+			seenPhi := map[*ssa.Phi]bool{}
+			var walk func(p *ssa.Phi)
+			walk = func(p *ssa.Phi) {
+				if seenPhi[p] {
+					return
+				}
+				seenPhi[p] = true
+				for _, e := range p.Edges {
+					if k, isK := e.(*ssa.Const); isK && k.IsNil() {
+						continue
+					}
+					if q, isQ := e.(*ssa.Phi); isQ {
+						walk(q)
+						continue
+					}
+					eid := chanIdentity(c, e, stack, depth+1)
+					if eid == "" || (one != "" && eid != one) {
+						okPhi = false
+					}
+					one = eid
+				}
+			}
+			walk(x)
+			if okPhi {
+				id = one
+			}
 		case *ssa.FreeVar:
 			// captured by value through a MakeClosure in a helper: the binding
 			if mc := bindingSite(c, x); mc != nil {
@@ -683,6 +775,18 @@ func walkerCells(c *Ctx, loop *ssa.Function) (aCell, bCell string) {
 				continue
 			}
 			for _, r2 := range eng.Referrers(e) {
+				if ph, isPhi := r2.(*ssa.Phi); isPhi {
+					// the entry is kept in a register variable
+					if l := phiWeb(ph); l != "" {
+						if ch == chanOf["a"] {
+							aCell = l
+						}
+						if ch == chanOf["b"] {
+							bCell = l
+						}
+					}
+					continue
+				}
 				s, ok := r2.(*ssa.Store)
 				if !ok || s.Val != ssa.Value(e) {
 					continue
